@@ -173,7 +173,15 @@ def server_case(idx, rng, rep):
             promised_class = 'too-big'
         hkind = 'valid'
         headers = rng.choice(REQS)
-        if rng.random() < 0.08:
+        if rng.random() < 0.04:
+            # a valid list whose encoded block is within a few octets of MAX_FRAME_SIZE, where the promised stream id in front of
+            # the first fragment decides whether the block still fits one frame (octets with 8-bit Huffman codes: encoded
+            # length = length)
+            n = rng.randrange(16384 - 60, 16384 + 10)
+            headers = list(REQS[0]) + [(b'x-big', bytes(rng.choice(b'XZ&*,;') for _ in range(32)) * (n // 32) + b'X' * (n % 32))]
+            hkind = 'valid-near-frame-size'
+            rep.count('server_push_blocks_near_frame_size')
+        elif rng.random() < 0.08:
             headers = rng.choice(BAD_REQS)
             hkind = 'bad'
         elif rng.random() < 0.1:
